@@ -96,35 +96,55 @@ Definition is_rok (r : rule) : bool := match r with ROk => true | _ => false end
 (* batch.Validate() of a closed batch, as far as Model/Arith.v knows *)
 Definition batch_okb (AT : tables) (k : kind) (b : batchR) : bool := is_rok (validate_batch AT (p_batch k b)).
 
-(* where reader.go calls maybeValidate: (Reader method, what is validated) in source order.
-   "rec" = the record just parsed (always before it is attached to the file / batch / entry),
-   "batch" = the batch just closed. *)
-Definition validate_sites : list (string * list string) :=
-  [ ("parseLine", ["batch"; "batch"])
-  ; ("parseFileHeader", ["rec"])
-  ; ("parseBatchHeader", ["rec"])
-  ; ("parseEntryDetail", ["rec"; "rec"])
-  ; ("parseAddenda", ["rec"; "rec"; "rec"; "rec"; "rec"; "rec"; "rec"])
-  ; ("parseADVAddenda", ["rec"])
-  ; ("parseBatchControl", ["rec"; "rec"; "rec"])
-  ; ("parseFileControl", ["rec"; "rec"])
-  ; ("parseIATBatchHeader", ["rec"])
-  ; ("parseIATEntryDetail", ["rec"])
-  ; ("mandatoryOptionalIATAddenda", ["rec"; "rec"; "rec"; "rec"; "rec"; "rec"; "rec"; "rec"; "rec"])
-  ; ("nocIATAddenda", ["rec"])
-  ; ("returnIATAddenda", ["rec"]) ].
-(* Reader methods that call Parse on a record: each of them is in the list above, and the number
-   of Parse calls equals the number of "rec" validations (no record is parsed without being
-   validated) *)
-Definition parse_sites : list (string * nat) :=
-  [ ("parseFileHeader", 1); ("parseBatchHeader", 1); ("parseEntryDetail", 2); ("parseAddenda", 7)
-  ; ("parseADVAddenda", 1); ("parseBatchControl", 3); ("parseFileControl", 2); ("parseIATBatchHeader", 1)
-  ; ("parseIATEntryDetail", 1); ("mandatoryOptionalIATAddenda", 9); ("nocIATAddenda", 1); ("returnIATAddenda", 1) ].
-(* Read itself: no validation call (File.Validate is left to the caller) *)
-Definition read_validates : list string := [].
-(* maybeValidate: `if opts != nil && opts.SkipAll { return nil }; return rec.Validate()` *)
+(* WHERE reader.go validates: for every method of Reader, in source order, the events
+     P:<x>   x.Parse(r.line)
+     V:<x>   if err := maybeValidate(x, r.File.validateOpts); err != nil { return … }
+   (regenerated into Gen/ReaderValidSites.v; a maybeValidate call of any other shape is emitted as
+   V?:<x>, a direct Validate() call as D:<x>).  Every record is validated right after it was parsed
+   and before it is attached ([h_read_rec] below); the closed batch is validated in parseLine, after
+   it was added to the file ([h_ctx_close]); Read itself validates nothing: File.Validate() is left
+   to the caller. *)
+Definition validate_events : list (string * list string) :=
+  [ ("Read", [])
+  ; ("parseLine", ["V:batch"; "V:&batch"])
+  ; ("parseFileHeader", ["P:r.File.Header"; "V:&r.File.Header"])
+  ; ("parseBatchHeader", ["P:bh"; "V:bh"])
+  ; ("parseEntryDetail", ["P:ed"; "V:ed"; "P:ed"; "V:ed"])
+  ; ("parseAddenda", ["P:addenda02"; "V:addenda02"; "P:addenda05"; "V:addenda05"; "P:addenda98Refused"; "V:addenda98Refused"
+                     ; "P:addenda98"; "V:addenda98"; "P:addenda99Dishonored"; "V:addenda99Dishonored"
+                     ; "P:addenda99Contested"; "V:addenda99Contested"; "P:addenda99"; "V:addenda99"])
+  ; ("parseADVAddenda", ["P:addenda99"; "V:addenda99"])
+  ; ("parseBatchControl", ["P:r.currentBatch.GetADVControl()"; "V:r.currentBatch.GetADVControl()"
+                          ; "P:r.currentBatch.GetControl()"; "V:r.currentBatch.GetControl()"
+                          ; "P:r.IATCurrentBatch.GetControl()"; "V:r.IATCurrentBatch.GetControl()"])
+  ; ("parseFileControl", ["P:r.File.Control"; "V:&r.File.Control"; "P:r.File.ADVControl"; "V:&r.File.ADVControl"])
+  ; ("parseIATBatchHeader", ["P:bh"; "V:bh"])
+  ; ("parseIATEntryDetail", ["P:ed"; "V:ed"])
+  ; ("mandatoryOptionalIATAddenda", ["P:addenda10"; "V:addenda10"; "P:addenda11"; "V:addenda11"; "P:addenda12"; "V:addenda12"
+                                    ; "P:addenda13"; "V:addenda13"; "P:addenda14"; "V:addenda14"; "P:addenda15"; "V:addenda15"
+                                    ; "P:addenda16"; "V:addenda16"; "P:addenda17"; "V:addenda17"; "P:addenda18"; "V:addenda18"])
+  ; ("nocIATAddenda", ["P:addenda98"; "V:addenda98"])
+  ; ("returnIATAddenda", ["P:addenda99"; "V:addenda99"]) ].
+
+(* maybeValidate *)
 Definition maybe_validate_src : string :=
-  "{ if opts != nil && opts.SkipAll { return nil }; return rec.Validate() }".
+  "{ if opts != nil && opts.SkipAll { return nil } return rec.Validate() }".
+
+(* the property of the table the model relies on: every Parse is directly followed by the
+   validation of the same record (x or &x) *)
+Fixpoint parse_validated (evs : list string) : bool :=
+  match evs with
+  | [] => true
+  | e :: rest =>
+      if String.prefix "P:" e then
+        match rest with
+        | v :: rest' =>
+            let x := String.substring 2 (String.length e - 2) e in
+            (String.eqb v ("V:" ++ x) || String.eqb v ("V:&" ++ x)) && parse_validated rest'
+        | [] => false
+        end
+      else String.prefix "V:" e && parse_validated rest
+  end.
 
 Section Gen.
 Variable T : list layout.
